@@ -232,6 +232,8 @@ def describe(job, var, rec):
             item_short(items[var["p"]]), var.get("style"))
     if rec["e"] == "S":
         k = rec["k"] - 1
+    elif rec.get("done", 0) < rec.get("want", 0):
+        k = rec["done"]                     # the first step that did not finish
     else:
         k = rec.get("want", 0)
     at = item_short(items[k]) if 0 <= k < len(items) else "end"
@@ -548,7 +550,7 @@ def barrage_job(ctx, svcs, rid):
         var.append({"mode": "split", "cuts": sorted(ctx.rng.sample(range(1, total), k))})
     for _ in range(8):
         var.append({"mode": "whole", "trunc": ctx.rng.randrange(total)})
-    var += prompt_variants(ctx, items, 12, kmax=4)
+    var += prompt_variants(ctx, items, 5, kmax=4)
     return {"rid": rid, "svcs": svcs, "items": items, "variants": var}
 
 
